@@ -366,7 +366,26 @@ IterMutProg(style, mut, at) ==
   IN <<VarS("l", ListE(<<I(1), I(2), I(3), I(4)>>)), VarS("n", I(0)),
        [k |-> "range", style |-> (IF style = "in" THEN "in" ELSE "range"), vars |-> vars, c |-> Id("l"), body |-> body],
        PV(2, ListE(<<Id("l"), Id("n")>>)), ES(I(0))>>
-IterMuts(u) == {IterMutProg(style, mut, at) : style \in {"range2", "range1", "in"},
+\* the same for a MAP: the loop visits the keys that existed when it started, in sorted order; an entry added by the
+\* body is not visited, a value written to a key not yet reached is seen, deleting a key not yet reached is an error
+\* when the loop gets there (Lang!EntryAt)
+MapE(ks, vs) == [k |-> "map", keys |-> ks, vals |-> vs]
+StrK(c) == Str1(c)
+MapMutProg(style, mut, at) ==
+  LET vars == IF style = "range2" THEN <<"k", "v">> ELSE <<"k">>
+      obs == ListE([j \in 1..Len(vars) |-> Id(vars[j])])
+      m == CASE mut = "addlow" -> SetIdxS(Id("m"), StrK(97), "=", I(9))          \* "a": sorts before every key
+             [] mut = "addhigh" -> SetIdxS(Id("m"), StrK(122), "=", I(9))        \* "z": sorts after every key
+             [] mut = "write" -> SetIdxS(Id("m"), StrK(101), "=", I(7))          \* the last key "e"
+             [] mut = "delseen" -> ES(CallE(Id("delete"), <<Id("m"), StrK(98)>>))    \* the first key "b"
+             [] mut = "dellast" -> ES(CallE(Id("delete"), <<Id("m"), StrK(101)>>))
+      body == <<PV(1, obs), AssignS("n", "+=", I(1)), ES(IfE(Bin("==", Id("n"), I(at)), <<m>>))>>
+  IN <<VarS("m", MapE(<<StrK(98), StrK(99), StrK(100), StrK(101)>>, <<I(1), I(2), I(3), I(4)>>)), VarS("n", I(0)),
+       [k |-> "range", style |-> "range", vars |-> vars, c |-> Id("m"), body |-> body],
+       PV(2, ListE(<<Id("m"), Id("n")>>)), ES(I(0))>>
+MapMuts(u) == {MapMutProg(style, mut, at) : style \in {"range2", "range1"},
+                 mut \in {"addlow", "addhigh", "write", "delseen", "dellast"}, at \in {1, 2}}
+IterMuts(u) == MapMuts(u) \cup {IterMutProg(style, mut, at) : style \in {"range2", "range1", "in"},
                   mut \in {"append", "pop", "extend", "reverse", "setlast", "rebind"}, at \in {1, 2, 4}}
 
 \* several deferred calls in one function: a function literal called in place, a named script function, a builtin, in
@@ -382,7 +401,20 @@ DeferProg(kinds, raises) ==
   IN <<VarS("lg", FuncE("", <<Param("k")>>, <<PV(1, Id("k"))>>)),
        VarS("f", FuncE("", <<>>, body)),
        PV(2, CallE(Id("try"), <<Id("f"), FuncE("", <<Param("e")>>, <<Ret(I(9))>>)>>)), ES(I(0))>>
-DeferProgs(u) == {DeferProg(ks, r) : ks \in (DeferKinds \X DeferKinds) \cup (DeferKinds \X DeferKinds \X DeferKinds), r \in BOOLEAN}
+\* ... and the same function called TWICE: the deferred calls of the first activation are not those of the second
+DeferTwice(kinds) ==
+  LET body == [j \in 1..Len(kinds) |-> DeferOf(kinds[j], 10 * j)] \o <<P(0), Ret(I(5))>>
+  IN <<VarS("lg", FuncE("", <<Param("k")>>, <<PV(1, Id("k"))>>)), VarS("f", FuncE("", <<>>, body)),
+       PV(2, CallE(Id("f"), <<>>)), PV(3, CallE(Id("f"), <<>>)), ES(I(0))>>
+\* a three-part loop whose init clause is empty (the only clause the grammar lets a three-part header omit)
+ForNoInit(inFn) ==
+  LET loop == [k |-> "for", init |-> <<>>, hascond |-> TRUE, cond |-> Bin("<", Id("x"), I(3)),
+               post |-> <<Postfix("x", "++")>>, body |-> <<PV(1, Id("x"))>>]
+      sts == <<VarS("x", I(0)), loop, PV(2, Id("x"))>>
+  IN IF inFn THEN <<VarS("run", FuncE("", <<>>, sts \o <<Ret(Id("x"))>>)), PV(3, CallE(Id("run"), <<>>)), ES(I(0))>>
+     ELSE sts \o <<ES(I(0))>>
+DeferProgs(u) == {DeferTwice(ks) : ks \in (DeferKinds \X DeferKinds)} \cup {ForNoInit(b) : b \in BOOLEAN} \cup
+                 {DeferProg(ks, r) : ks \in (DeferKinds \X DeferKinds) \cup (DeferKinds \X DeferKinds \X DeferKinds), r \in BOOLEAN}
 
 \* only well-scoped scenarios: the innermost function of a chain of depth d can see v_1 .. v_d
 Closures(maxd) == UNION {{ClosureProg(d, rd, wr, route, twice, ps[1], ps[2]) :
